@@ -193,8 +193,12 @@ def sav_src(op):
                 '    node.set_attribute({!r}, node.get_attribute({!r}).get_value() {} {})'.format(
                     op[1], op[1], '*' if k == 'scale' else '//', op[2])]
     if k == 'fail':
+        if len(op) > 1 and op[1] == 'bare':
+            return ["raise yatiml.SeasoningError"]          # no message
         return ["raise yatiml.SeasoningError('savorize refuses')"]
     if k == 'other':
+        if len(op) > 1 and op[1] == 'bare':
+            return ["assert False"]
         return ["raise ValueError('savorize blew up')"]
     raise ValueError(op)
 
